@@ -411,7 +411,7 @@ func execSim(line string) h.Result {
 	}
 	s := &simRun{scr: scr, cd: cd, syncCh: make(chan int, 4), res: &res, tags: map[string]bool{}, cells: map[[2]int]*simShadowCell{},
 		fb: map[rune]string{}, fbAt: map[rune]int{}, lastFull: -1, fullPending: true, locked: map[[2]int]bool{}}
-	for k, v := range tcell.RuneFallbacks {
+	for k, v := range defaultRuneFallbacks { // the package's defaults as they were before any screen existed
 		s.fb[k] = v
 	}
 	pollerDone := make(chan struct{})
